@@ -546,6 +546,69 @@ fn folds_special<T: Tier + num_traits::Float>(rep: &mut Report, mode: usize) {
         },
     );
 }
+/// long lists (float tiers): every length up to 40 and the neighbourhoods of 64, 128, ... 4096 - a summation or a product
+/// done in blocks, in pairs or with a carried compensation has its seams there. Rotations as factors, so that products
+/// of thousands of elements keep their size. Bit for bit against the explicit left fold.
+fn folds_long<T: Tier + num_traits::Float>(rep: &mut Report) {
+    let mut lens: Vec<usize> = (6..=40).collect();
+    for p in [64usize, 128, 256, 512, 1024, 2048, 4096] {
+        lens.extend([p - 1, p, p + 1]);
+    }
+    lens.extend([100, 1000, 1500, 3000]);
+    lens.sort();
+    rep.cases(
+        "folds/long",
+        T::NAME,
+        &format!("one list of each length in {:?}: Sum (values, references, iterators without a known length) and Product (rotations) vs the left fold, bit for bit", lens),
+        lens.len(),
+        Guard::states(40).distinct(20),
+        |i, ctx| {
+            let n = lens[i];
+            let l: Vec<usize> = (0..n).map(|j| (j * 7 + j / 5 + j / 64) % 3).collect();
+            ctx.describe(|| format!("list of length {n} over {}", T::NAME));
+            ctx.out(&n);
+            let g = |m: usize, v: usize| gen_r(m, v, false);
+            macro_rules! sum {
+                ($name:expr, $Ty:ty, $mk:expr) => {{
+                    let items: Vec<$Ty> = l.iter().map(|&k| $mk(k)).collect();
+                    let fold = items.iter().fold(<$Ty>::zero(), |a, b| a + *b);
+                    same(ctx, &format!("{}/sum/long", $name), "values", &items.iter().copied().sum::<$Ty>(), &fold);
+                    same(ctx, &format!("{}/sum/long", $name), "references", &items.iter().sum::<$Ty>(), &fold);
+                    same(ctx, &format!("{}/sum/long", $name), "values (filtered iterator)", &items.iter().copied().filter(|_| true).sum::<$Ty>(), &fold);
+                    same(ctx, &format!("{}/sum/long", $name), "references (filtered iterator)", &items.iter().filter(|_| true).sum::<$Ty>(), &fold);
+                }};
+            }
+            macro_rules! product {
+                ($name:expr, $Ty:ty, $mk:expr) => {{
+                    let items: Vec<$Ty> = l.iter().map(|&k| $mk(k)).collect();
+                    let fold = items.iter().fold(<$Ty>::one(), |a, b| a * *b);
+                    same(ctx, &format!("{}/product/long", $name), "values", &items.iter().copied().product::<$Ty>(), &fold);
+                    same(ctx, &format!("{}/product/long", $name), "references", &items.iter().product::<$Ty>(), &fold);
+                }};
+            }
+            sum!("Vector1", Vector1<T>, |k| mk_v1(vec_from_r::<T, 1>(&g(1, k))));
+            sum!("Vector2", Vector2<T>, |k| mk_v2(vec_from_r::<T, 2>(&g(2, k))));
+            sum!("Vector3", Vector3<T>, |k| mk_v3(vec_from_r::<T, 3>(&g(3, k))));
+            sum!("Vector4", Vector4<T>, |k| mk_v4(vec_from_r::<T, 4>(&g(4, k))));
+            sum!("Matrix2", Matrix2<T>, |k| mk_m2(mat_from_r::<T, 2>(&g(4, k))));
+            sum!("Matrix3", Matrix3<T>, |k| mk_m3(mat_from_r::<T, 3>(&g(9, k))));
+            sum!("Matrix4", Matrix4<T>, |k| mk_m4(mat_from_r::<T, 4>(&g(16, k))));
+            sum!("Quaternion", Quaternion<T>, |k| mk_q(vec_from_r::<T, 4>(&g(4, k))));
+            sum!("Rad", Rad<T>, |k| Rad(rq::<T>(g(1, k)[0])));
+            sum!("Deg", Deg<T>, |k| Deg(rq::<T>(g(1, k)[0])));
+            let uq = alphabet::uq(0);
+            let uv = alphabet::uv2();
+            let quat = |k: usize| -> Quaternion<T> { let (q, d) = uq[(11 * k + 3) % uq.len()]; mk_q(std::array::from_fn(|j| T::q(q[j], d))) };
+            let b2 = |k: usize| -> Basis2<T> { let (u, d) = uv[(5 * k + 2) % uv.len()]; Basis2::look_at_stable(mk_v2([T::q(u[0], d), T::q(u[1], d)]), k % 2 == 1) };
+            product!("Quaternion", Quaternion<T>, |k| quat(k));
+            product!("Basis3", Basis3<T>, |k| Basis3::from(quat(k)));
+            product!("Basis2", Basis2<T>, |k| b2(k));
+            product!("Matrix2", Matrix2<T>, |k| { let m: Matrix2<T> = b2(k).into(); m });
+            product!("Matrix3", Matrix3<T>, |k| Matrix3::from(quat(k)));
+            product!("Matrix4", Matrix4<T>, |k| Matrix4::from(quat(k)));
+        },
+    );
+}
 fn folds_int<D: Dom>(rep: &mut Report) {
     let ls = lists(3);
     rep.cases("folds/vectors", D::NAME, "every list of length 0..3 over a 3-element alphabet; Sum over values and references", ls.len(), Guard::states(40).distinct(10), |i, ctx| {
@@ -773,6 +836,8 @@ fn main() {
     folds::<Ex>(&mut rep);
     folds_zero::<f64>(&mut rep);
     folds_zero::<f32>(&mut rep);
+    folds_long::<f64>(&mut rep);
+    folds_long::<f32>(&mut rep);
     folds_int::<i32>(&mut rep);
     folds_int::<u8>(&mut rep);
     programs(&mut rep);
